@@ -20,9 +20,10 @@ def sh(cmd, cwd=None, env=None):
 
 def one(args):
     outdir, k, base = args
+    prefix = "g" if "/rg_" in str(outdir) else "r"  # second batch of refactorings: <id>-g<k>
     pid = json.loads((outdir / "property.json").read_text())["id"]
     patch = outdir / f"patch_{k}.diff"
-    name = f"{pid}-r{k}"
+    name = f"{pid}-{prefix}{k}"
     d = base / name
     d.mkdir()
     sh(f"git -C /repo archive HEAD | tar -x -C {d}")
